@@ -115,6 +115,12 @@ static void recv_signal(struct receiver *r)
 static void recv_set_value(struct receiver *r, int tok) { recv_signal(r); g_set_value++; g_tok = tok; }
 static void recv_set_error(struct receiver *r, int tok) { recv_signal(r); g_set_error++; g_tok = tok; }
 static void recv_set_stopped(struct receiver *r) { recv_signal(r); g_set_stopped++; }
+/* std::move(error) on the alternative stored in the shared state's variant: split and split_tuple deliver the ONE stored error to
+ * every consumer (N continuations read the same object), so it must be passed on by copy; ensure_started has a single consumer */
+#ifndef ERROR_SHARED
+#define ERROR_SHARED 0
+#endif
+static int *tok_moved_p(int *t) { VX_ASSERT(!ERROR_SHARED, "the stored predecessor error is shared by all consumers of split / split_tuple: it is delivered by copy, never moved out of the shared state"); return t; }
 static int tok_get(size_t i, int t) { g_get_index = i; g_get_used = true; return t; }   /* std::get<i>(t): element i of token t */
 #define VX_BIND(f, a) f, a                          /* pika::util::detail::bind_front(f, a) */
 #define VX_APPLY_(f, a, t) f(a, t)                  /* std::apply(bind_front(f, a), t)  ==  f(a, t...) */
